@@ -621,7 +621,12 @@ impl ConfigState {
     /// `StateError::InvalidValue` if a flood-knob value is below the required
     /// minimum.
     fn update_http_listener(&mut self, patch: &UpdateHttpListenerConfig) -> Result<(), StateError> {
+        // Validate every field before the first write: a rejected patch must
+        // leave the listener exactly as it was.
         validate_h2_flood_knobs_http(patch)?;
+        if let Some(ref v) = patch.sozu_id_header {
+            validate_sozu_id_header(v)?;
+        }
 
         let address: SocketAddr = patch.address.into();
         let listener =
@@ -714,7 +719,6 @@ impl ConfigState {
             listener.h2_max_window_update_stream0_per_window = Some(v);
         }
         if let Some(ref v) = patch.sozu_id_header {
-            validate_sozu_id_header(v)?;
             listener.sozu_id_header = Some(v.to_owned());
         }
         Ok(())
@@ -730,7 +734,15 @@ impl ConfigState {
         &mut self,
         patch: &UpdateHttpsListenerConfig,
     ) -> Result<(), StateError> {
+        // Validate every field before the first write: a rejected patch must
+        // leave the listener exactly as it was.
         validate_h2_flood_knobs_https(patch)?;
+        if let Some(ref alpn_wrapper) = patch.alpn_protocols {
+            validate_alpn_protocols(&alpn_wrapper.values)?;
+        }
+        if let Some(ref v) = patch.sozu_id_header {
+            validate_sozu_id_header(v)?;
+        }
 
         let address: SocketAddr = patch.address.into();
         let listener =
@@ -768,7 +780,6 @@ impl ConfigState {
         }
         // HTTPS-only knobs
         if let Some(ref alpn_wrapper) = patch.alpn_protocols {
-            validate_alpn_protocols(&alpn_wrapper.values)?;
             // Empty values vec = reset to default (runtime treats empty as default)
             listener.alpn_protocols = alpn_wrapper.values.clone();
         }
@@ -835,7 +846,6 @@ impl ConfigState {
             listener.h2_max_window_update_stream0_per_window = Some(v);
         }
         if let Some(ref v) = patch.sozu_id_header {
-            validate_sozu_id_header(v)?;
             listener.sozu_id_header = Some(v.to_owned());
         }
         Ok(())
